@@ -29,7 +29,7 @@ package redisemu
 //@ guards on
 //@ safetyprop none
 //@ requires cs != nil
-//@ modifies *
+//@ modifies map global.info ghost.mutexHeld
 
 //@ func fnInfo
 //@ prop C16
